@@ -143,6 +143,17 @@ def matrix_cases(ctx):
             yield {"cmd": cmd, "params": {}, "arrays": arrays[::-1], "shape": [6]}
     for dt in ("int64", "float64"):
         yield {"cmd": "Copy", "params": {}, "arrays": matrix_arrays([dt, dt])[1:], "shape": [6]}
+    # integers beyond the range in which doubles are exact (2^53), within the 64-bit integers: integer arithmetic is exact
+    big = [{"data": [100000001, 3, -94906267, 9007199254740993], "mask": None, "dtype": "int64"},
+           {"data": [100000001, -94906267, 94906267, 1], "mask": [0, 0, 0, 0], "dtype": "int64"},
+           {"data": [1, 2, -1, 1], "mask": None, "dtype": "int32"}]
+    for cmd in ("Multiply", "Sum", "Minimum", "Maximum", "WeightedSum"):
+        for k in (1, 2, 3):
+            for arrays in ([big[j] for j in order] for order in itertools.permutations(range(k))):
+                yield {"cmd": cmd, "params": {"Weights": [1, 3, -2][:k]} if cmd == "WeightedSum" else {}, "arrays": arrays, "shape": [4]}
+    for a, b in ((0, 1), (1, 0), (0, 2)):
+        yield {"cmd": "AMinusB", "params": {}, "arrays": [big[a], big[b]], "shape": [4]}
+    yield {"cmd": "Copy", "params": {}, "arrays": [big[0]], "shape": [4]}
 
 
 # ---------------------------------------------------------------------- error cases
